@@ -44,8 +44,13 @@ impl Mgr {
 }
 
 /// Run f, turning a panic into Err(message). The panic hook is silenced globally by main.
+pub static IN_LIBRARY: std::sync::atomic::AtomicU64 = std::sync::atomic::AtomicU64::new(0);
+
 pub fn guarded<R>(f: impl FnOnce() -> R) -> Result<R, String> {
-    match catch_unwind(AssertUnwindSafe(f)) {
+    IN_LIBRARY.store(1, std::sync::atomic::Ordering::Relaxed);
+    let r = catch_unwind(AssertUnwindSafe(f));
+    IN_LIBRARY.store(0, std::sync::atomic::Ordering::Relaxed);
+    match r {
         Ok(r) => Ok(r),
         Err(p) => {
             let msg = if let Some(s) = p.downcast_ref::<&str>() {
